@@ -619,7 +619,7 @@ class C07(Driver):
             tleft = {}
             for e in res.events:
                 if e.kind == "tleft":
-                    a_, b_, c_ = e.payload.split(" ")
+                    a_, b_, c_ = e.payload.split(" ", 2)
                     tleft.setdefault(int(a_), []).append(int(c_) if c_.lstrip("-").isdigit() else c_)
             for j, a in enumerate(adv):
                 if a["a"] != "give" or j not in aret or not steps[a["ch"][0]].get("tchan"):
